@@ -539,9 +539,138 @@ fn dependent_sweep(e: &mut EnumCtx) {
     }
 }
 
-fn gen(maxk: usize) -> impl Fn(&mut EnumCtx) + Sync {
+thread_local! {
+    static DISPATCH_LOG: RefCell<Vec<(String, bool, String)>> = RefCell::new(vec![]);
+    static DISPATCH_HOOKS: RefCell<std::collections::HashMap<String, (&'static RustCallbackFunction, &'static RustCallbackFunction)>> = RefCell::new(std::collections::HashMap::new());
+}
+
+fn dispatch_hooks(name: &str) -> (&'static RustCallbackFunction, &'static RustCallbackFunction) {
+    DISPATCH_HOOKS.with(|h| {
+        let mut h = h.borrow_mut();
+        if let Some(x) = h.get(name) {
+            return *x;
+        }
+        let mk = |before: bool| -> &'static RustCallbackFunction {
+            let n = name.to_string();
+            Box::leak(Box::new(move |_ax: &mut Axecutor, m: SupportedMnemonic| {
+                DISPATCH_LOG.with(|l| l.borrow_mut().push((n.clone(), before, format!("{m:?}"))));
+                Ok(HookResult::Unhandled)
+            }))
+        };
+        let x = (mk(true), mk(false));
+        h.insert(name.to_string(), x);
+        x
+    })
+}
+
+/// One register-direct instruction per mnemonic of the census (iced mnemonic name, bytes).
+pub fn dispatch_templates() -> Vec<(String, Vec<u8>)> {
+    let census = crate::tmpl::run_census();
+    let canon = crate::sweeps::canonical_templates(&census);
+    let mut best: std::collections::BTreeMap<String, Vec<u8>> = std::collections::BTreeMap::new();
+    for t in &canon {
+        let d = match crate::tmpl::decode_at(&t.bytes, 0x1000) {
+            Some(d) => d,
+            None => continue,
+        };
+        // (LEA names a memory operand without touching memory)
+        if crate::tmpl::has_mem(&d.instr) && d.instr.mnemonic() != iced_x86::Mnemonic::Lea {
+            continue;
+        }
+        let n = format!("{:?}", d.instr.mnemonic());
+        let b = t.bytes[..d.instr.len()].to_vec();
+        match best.get(&n) {
+            Some(old) if (old.len(), old) <= (b.len(), &b) => {}
+            _ => {
+                best.insert(n, b);
+            }
+        }
+    }
+    best.into_iter().collect()
+}
+
+/// Hook dispatch is keyed by the mnemonic: with a logging hook pair on EVERY supported mnemonic,
+/// one instruction of each mnemonic runs exactly the pair registered under its own name, and the
+/// hooks are told that name.
+fn dispatch_sweep(e: &mut EnumCtx, tmpls: &[(String, Vec<u8>)]) {
+    use std::convert::TryFrom;
+    let supported: Vec<SupportedMnemonic> = {
+        let mut v: Vec<SupportedMnemonic> = vec![];
+        for m in iced_x86::Mnemonic::values() {
+            if let Ok(s) = SupportedMnemonic::try_from(m) {
+                if !v.contains(&s) {
+                    v.push(s);
+                }
+            }
+        }
+        v
+    };
+    for (name, bytes) in tmpls {
+        if !e.next() {
+            continue;
+        }
+        e.describe("hooks", &format!("dispatch {name} [{}]", crate::common::hex(bytes)));
+        let mut code = bytes.clone();
+        code.extend_from_slice(&[0x90; 8]);
+        let mut ax = match Axecutor::new(&code, 0x1000, 0x1000) {
+            Ok(a) => a,
+            Err(_) => continue,
+        };
+        if ax.init_stack(0x100).is_err() {
+            continue;
+        }
+        let rsp = ax.reg_read_64(SR::RSP).unwrap();
+        for k in 0..16 {
+            ax.reg_write_64(crate::emu::GPR64[k], 0x10).unwrap();
+        }
+        ax.reg_write_64(SR::RDX, 0).unwrap();
+        ax.reg_write_64(SR::RSP, rsp - 0x40).unwrap();
+        for s in &supported {
+            let (b, a) = dispatch_hooks(&format!("{s:?}"));
+            let _ = ax.hook_before_mnemonic_native(*s, b);
+            let _ = ax.hook_after_mnemonic_native(*s, a);
+        }
+        DISPATCH_LOG.with(|l| l.borrow_mut().clear());
+        let out = crate::emu::step(&mut ax);
+        let log: Vec<(String, bool, String)> = DISPATCH_LOG.with(|l| l.borrow().clone());
+        e.count("transitions", 1);
+        e.count("dispatch_cases", 1);
+        let mut f = crate::common::Fp::new();
+        f.str(name);
+        f.u64(0x64697370);
+        e.state(f.0);
+        f.str(out.class());
+        f.u64(log.len() as u64);
+        e.outcome(f.0);
+        let w = || json!({"dispatch_instruction": name, "bytes": crate::common::hex(bytes)});
+        let ctx = format!("one `{name}` instruction [{}] with a logging hook pair on every supported mnemonic", crate::common::hex(bytes));
+        if let StepOut::Panic(p) = &out {
+            e.finding(&format!("hooks|panic@{}", p.tag()), || format!("{ctx}: step panicked"), w);
+            continue;
+        }
+        if let Some(x) = log.iter().find(|x| x.0 != *name) {
+            e.finding("hooks|foreign-mnemonic-hook-ran", || format!("{ctx}: the {} hook registered for {} ran", if x.1 { "before" } else { "after" }, x.0), w);
+        }
+        if let Some(x) = log.iter().find(|x| x.2 != *name) {
+            e.finding("hooks|wrong-mnemonic-passed-to-hook", || format!("{ctx}: a hook was told the mnemonic is {}", x.2), w);
+        }
+        if let StepOut::Ok(_) = out {
+            let nb = log.iter().filter(|x| x.0 == *name && x.1).count();
+            let na = log.iter().filter(|x| x.0 == *name && !x.1).count();
+            if nb != 1 {
+                e.finding("hooks|must-run-violated|before", || format!("{ctx}: its own before-hook ran {nb} time(s)"), w);
+            }
+            if na != 1 {
+                e.finding("hooks|must-run-violated|after", || format!("{ctx}: its own after-hook ran {na} time(s)"), w);
+            }
+        }
+    }
+}
+
+fn gen(maxk: usize, tmpls: Vec<(String, Vec<u8>)>) -> impl Fn(&mut EnumCtx) + Sync {
     move |e: &mut EnumCtx| {
         dependent_sweep(e);
+        dispatch_sweep(e, &tmpls);
         for nb in 0..=maxk {
             for na in 0..=maxk {
                 let tb = NOUT.pow(nb as u32);
@@ -607,14 +736,17 @@ pub fn run(tier: Tier) -> i32 {
         wall_cap_secs: if tier.is_thorough() { 1500 } else { 45 },
         crash_subject: "hooks".into(),
     };
-    let g = gen(maxk);
+    let tmpls = dispatch_templates();
+    let g = gen(maxk, tmpls.clone());
     if let Some(art) = crate::common::replay_artefact() {
         return crate::common::finish_replay("C12", &art, &|ws| confirm_enum(&o, &g, ws));
     }
     let out = run_enum(&o, &g);
-    enum_evidence(&mut run, &out, "one case = (outcomes of up to k before-hooks and k after-hooks on `inc rcx` from {Unhandled, Handled, Stop, Error, Mutate(RBX), Register-a-hook-from-inside, Redirect(RIP to a second trailing instruction)}, a logging hook pair on `nop`, one of 5 programs (the fifth ends by a top-level `ret` with a logging hook pair of its own), one of 5 follow-up API calls); plus the four instructions that need a hook to work (`syscall`, `int n`, `int1`, `int3`) x all 256 subsets of logging before/after hooks on their four mnemonics; the event log of instrumented native hooks is checked against the order-agnostic grammar of DESIGN C12; states = distinct (hook event log, program, follow-up); distinct_nontrivial = distinct hook event logs");
+    enum_evidence(&mut run, &out, "one case = (outcomes of up to k before-hooks and k after-hooks on `inc rcx` from {Unhandled, Handled, Stop, Error, Mutate(RBX), Register-a-hook-from-inside, Redirect(RIP to a second trailing instruction)}, a logging hook pair on `nop`, one of 5 programs (the fifth ends by a top-level `ret` with a logging hook pair of its own), one of 5 follow-up API calls); plus the four instructions that need a hook to work (`syscall`, `int n`, `int1`, `int3`) x all 256 subsets of logging before/after hooks on their four mnemonics; plus one register-direct instruction per mnemonic of the census (all 65 supported mnemonics) with a logging hook pair on EVERY supported mnemonic (dispatch by name); the event log of instrumented native hooks is checked against the order-agnostic grammar of DESIGN C12; states = distinct (hook event log, program, follow-up); distinct_nontrivial = distinct hook event logs");
     run.cov("max_hooks_per_phase", json!(maxk));
     run.guard("cases", out.cases >= 30_000 || out.capped, format!("{} configurations", out.cases));
+    run.cov("dispatch_mnemonics", json!(tmpls.iter().map(|t| t.0.clone()).collect::<Vec<_>>()));
+    run.guard("dispatch-mnemonics", tmpls.len() >= 50, format!("{} mnemonics with a register-direct form", tmpls.len()));
     run.guard("logs-distinct", out.distinct > 50, format!("{} distinct hook logs", out.distinct));
     run.assume("hook order is documented as undefined: the grammar is order-agnostic; after a Stop, or a Handled in the other phase, only 'at most once' is demanded of the remaining hooks");
     run.finish_batch(&move |ws| confirm_enum(&o, &g, ws))
